@@ -151,3 +151,35 @@ extern "C" void h_ov()
   }
   WITNESS_POINT();
 }
+
+// large domains (5 and more values): ov_theory::new_var goes through the grid encoding of exactly-one.
+//   PARAM(0) = number of values n.   For ALL total assignments: in every model the variable has exactly one value, and the
+//   reported domain after choosing a value (assume its literal) is that value alone.
+#define MAXW 26
+extern "C" void h_big()
+{
+  const int n = PARAM(0);
+  sat_core &s = *new sat_core();
+  ov_theory &ov = *new ov_theory(s);
+  var_value *pool[8];
+  std::vector<var_value *> items;
+  for (int i = 0; i < n; i++) { pool[i] = new var_value(); items.push_back(pool[i]); }
+  const var v = ov.new_var(items, true);
+  bool pr = s.propagate();
+  CHECK(pr, "creating the object variable leaves the network consistent");
+  CHECK(s.assigns.size() <= MAXW, "harness bound on SAT variables");
+  bool m[MAXW];
+  for (int i = 0; i < MAXW; i++) m[i] = nondet_bool();
+  lit vl[8];
+  int cnt = 0;
+  for (int i = 0; i < n; i++) { vl[i] = ov.allows(v, *pool[i]); cnt += lvalm(m, vl[i]) ? 1 : 0; }
+  if (is_model(s, m)) CHECK(cnt == 1, "an object variable with a large domain takes exactly one of its allowed values in every model");
+  // choose each value in turn: propagation must leave exactly that value in the reported domain
+  for (int i = 0; i < n; i++)
+  {
+    if (!s.assume(vl[i])) { CHECK(false, "choosing an allowed value is consistent"); break; }
+    CHECK(ov.value(v).size() == 1 && ov.value(v).count(pool[i]) == 1, "after choosing a value the reported domain is that value alone");
+    s.pop();
+  }
+  WITNESS_POINT();
+}
